@@ -358,6 +358,57 @@ int main(int argc, char** argv) {
     std::unique_ptr<SimpleDoc> copied;
   };
   static std::vector<RealW> WZ;
+  auto realise_wide = [](const ref::Value& v, RealW& z) -> std::string {
+    std::string text = ref::write_json(v);
+    z.parsed.reset(new PoolDoc());
+    z.parsed->Parse(text);
+    z.mapped.reset(new PoolDoc());
+    z.mapped->Parse(text);
+    if (z.mapped->IsObject()) {
+      z.mapped->CreateMap(z.mapped->GetAllocator());
+      for (auto it = z.mapped->MemberBegin(); it != z.mapped->MemberEnd(); ++it)
+        if (it->value.IsObject()) it->value.CreateMap(z.mapped->GetAllocator());
+    }
+    z.copied.reset(new SimpleDoc());
+    z.copied->CopyFrom(*z.parsed, z.copied->GetAllocator(), true);
+    // API build in reverse order (objects only: array order is significant), owned keys
+    z.api_rev.reset(new PoolDoc());
+    auto& al = z.api_rev->GetAllocator();
+    if (v.k == ref::Obj) {
+      z.api_rev->SetObject();
+      for (size_t m = v.o.size(); m-- > 0;) {
+        PoolDoc::NodeType c;
+        c.CopyFrom((z.parsed->MemberBegin() + (long)m)->value, al, true);
+        z.api_rev->AddMember(v.o[m].first, std::move(c), al, true);
+      }
+    } else
+      z.api_rev->CopyFrom(*z.parsed, al, true);
+    for (int r = 0; r < 4; r++) {
+      ref::Value got = r == 0 ? sc::to_ref(*z.parsed) : r == 1 ? sc::to_ref(*z.mapped) : r == 2 ? sc::to_ref(*z.api_rev) : sc::to_ref(*z.copied);
+      if (!ref::equal(got, v)) return "wide realisation " + std::to_string(r) + " of " + text.substr(0, 200) + " reads back as " + ref::show(got).substr(0, 200);
+    }
+    return "";
+  };
+  // object of n members k0..k(n-1) in a variant (used by E3 and E4)
+  auto wobj = [](unsigned n, int variant, unsigned p) {
+    ref::Value o = ref::Value::mk(ref::Obj);
+    for (unsigned i = 0; i < n; i++) o.o.emplace_back("k" + std::to_string(i), ref::Value::mkU(i));
+    switch (variant) {
+      case 0: break;
+      case 1: std::reverse(o.o.begin(), o.o.end()); break;
+      case 2: if (n > 7) std::rotate(o.o.begin(), o.o.begin() + 7, o.o.end()); break;
+      case 3: if (n) o.o[p].second = ref::Value::mkU(1000 + p); break;
+      case 5: if (n) o.o.pop_back(); break;
+    }
+    return o;
+  };
+  // E4: size sweep
+  static std::vector<unsigned> N4;
+  if (N4.empty()) {
+    for (unsigned n = 0; n <= 130; n++) N4.push_back(n);
+    for (unsigned b : {256u, 512u, 1024u})
+      for (int d = -1; d <= 1; d++) N4.push_back(b + d);
+  }
   if (WV.empty()) {
     auto obj = [](unsigned n, int variant, unsigned p) {
       ref::Value o = ref::Value::mk(ref::Obj);
@@ -404,34 +455,8 @@ int main(int argc, char** argv) {
     }
     WZ.resize(WV.size());
     for (size_t i = 0; i < WV.size(); i++) {
-      std::string text = ref::write_json(WV[i]);
-      WZ[i].parsed.reset(new PoolDoc());
-      WZ[i].parsed->Parse(text);
-      WZ[i].mapped.reset(new PoolDoc());
-      WZ[i].mapped->Parse(text);
-      if (WZ[i].mapped->IsObject()) {
-        WZ[i].mapped->CreateMap(WZ[i].mapped->GetAllocator());
-        for (auto it = WZ[i].mapped->MemberBegin(); it != WZ[i].mapped->MemberEnd(); ++it)
-          if (it->value.IsObject()) it->value.CreateMap(WZ[i].mapped->GetAllocator());
-      }
-      WZ[i].copied.reset(new SimpleDoc());
-      WZ[i].copied->CopyFrom(*WZ[i].parsed, WZ[i].copied->GetAllocator(), true);
-      // API build in reverse order (objects only: array order is significant), owned keys
-      WZ[i].api_rev.reset(new PoolDoc());
-      auto& al = WZ[i].api_rev->GetAllocator();
-      if (WV[i].k == ref::Obj) {
-        WZ[i].api_rev->SetObject();
-        for (size_t m = WV[i].o.size(); m-- > 0;) {
-          PoolDoc::NodeType c;
-          c.CopyFrom(WZ[i].parsed->FindMember(WV[i].o[m].first)->value, al, true);
-          WZ[i].api_rev->AddMember(WV[i].o[m].first, std::move(c), al, true);
-        }
-      } else
-        WZ[i].api_rev->CopyFrom(*WZ[i].parsed, al, true);
-      for (int r = 0; r < 4; r++) {
-        ref::Value got = r == 0 ? sc::to_ref(*WZ[i].parsed) : r == 1 ? sc::to_ref(*WZ[i].mapped) : r == 2 ? sc::to_ref(*WZ[i].api_rev) : sc::to_ref(*WZ[i].copied);
-        if (!ref::equal(got, WV[i]) && build_error.empty()) build_error = "wide realisation " + std::to_string(r) + " of " + text + " reads back as " + ref::show(got);
-      }
+      std::string err = realise_wide(WV[i], WZ[i]);
+      if (!err.empty() && build_error.empty()) build_error = err;
     }
   }
   vr::Family f3;
@@ -485,6 +510,58 @@ int main(int argc, char** argv) {
       }
       return;
     }
+    if (f.name[1] == '4') {
+      static const char* wn[4] = {"parsed", "parsed+maps", "api-reversed", "deep-copy(freeing alloc)"};
+      static const int var5[5] = {0, 1, 2, 3, 5};
+      unsigned n = N4[idx / 25];
+      int vi = var5[(idx / 5) % 5], vj = var5[idx % 5];
+      for (int kind = 0; kind < 2; kind++) {
+        ref::Value A, B;
+        if (kind == 0) {
+          A = wobj(n, vi, n ? n - 1 : 0);
+          B = wobj(n, vj, n ? n - 1 : 0);
+        } else {
+          if (vi > 3 || vj > 3 || vi == 2 || vj == 2) continue;  // arrays: base / reversed / last changed
+          A = ref::Value::mk(ref::Arr);
+          B = ref::Value::mk(ref::Arr);
+          for (unsigned i = 0; i < n; i++) {
+            A.a.push_back(ref::Value::mkU(i));
+            B.a.push_back(ref::Value::mkU(i));
+          }
+          if (vi == 1) std::reverse(A.a.begin(), A.a.end());
+          if (vj == 1) std::reverse(B.a.begin(), B.a.end());
+          if (vi == 3 && n) A.a[n - 1] = ref::Value::mkU(1000 + n);
+          if (vj == 3 && n) B.a[n - 1] = ref::Value::mkU(1000 + n);
+        }
+        RealW za, zb;
+        std::string e1 = realise_wide(A, za), e2 = realise_wide(B, zb);
+        std::string desc = std::string(kind ? "arrays" : "objects") + " of size " + std::to_string(n) + ", variants " + std::to_string(vi) + " vs " + std::to_string(vj);
+        if (!e1.empty() || !e2.empty()) {
+          ctx.violation("harness_build", "harness_build", desc, "harness error: %s", (e1 + e2).c_str());
+          return;
+        }
+        bool want = ref::equal(A, B);
+        ctx.nontriv();
+        if (ctx.want_sample) ctx.sample(desc);
+        for (int ri = 0; ri < 4; ri++)
+          for (int rj = 0; rj < 4; rj++) {
+            ctx.eval();
+            auto go = [&](const auto& X) -> int {
+              switch (rj) {
+                case 0: return (int)(X == *zb.parsed) | ((int)(X != *zb.parsed) << 1);
+                case 1: return (int)(X == *zb.mapped) | ((int)(X != *zb.mapped) << 1);
+                case 2: return (int)(X == *zb.api_rev) | ((int)(X != *zb.api_rev) << 1);
+                default: return (int)(X == *zb.copied) | ((int)(X != *zb.copied) << 1);
+              }
+            };
+            int r = ri == 0 ? go(static_cast<const PoolDoc::NodeType&>(*za.parsed)) : ri == 1 ? go(static_cast<const PoolDoc::NodeType&>(*za.mapped)) : ri == 2 ? go(static_cast<const PoolDoc::NodeType&>(*za.api_rev)) : go(static_cast<const SimpleDoc::NodeType&>(*za.copied));
+            bool e = r & 1, ne = (r >> 1) & 1;
+            if (e != want) ctx.violation("eq_vs_model", want ? "eq_false_negative_size" : "eq_false_positive_size", desc, "%s: [%s] == [%s] is %d but the values are %s", desc.c_str(), wn[ri], wn[rj], (int)e, want ? "equal" : "different");
+            if (ne == e) ctx.violation("ne_not_negation", "eq_ne_not_negation", desc, "operator!= is not the negation of operator== for [%s] vs [%s]", wn[ri], wn[rj]);
+          }
+      }
+      return;
+    }
     if (f.name[1] == '3') {
       static const char* wn[4] = {"parsed", "parsed+maps", "api-reversed", "deep-copy(freeing alloc)"};
       size_t i = idx / WV.size(), j = idx % WV.size();
@@ -509,7 +586,13 @@ int main(int argc, char** argv) {
     if (ab && bc) ctx.nontriv();
     if (ab && bc && !ac) ctx.violation("eq_intransitive", "eq_intransitive", ref::show(V[a]), "a==b and b==c but not a==c: %s / %s / %s", ref::show(V[a]).c_str(), ref::show(V[b]).c_str(), ref::show(V[c]).c_str());
   };
-  std::vector<vr::Family> fams = {f1, f2, f3};
+  vr::Family f4;
+  f4.name = "E4_size_sweep";
+  f4.count = (uint64_t)N4.size() * 25;
+  f4.group = "E4";
+  f4.chunk = 8;
+  f4.rule = "objects of EVERY size n in 0..130 and 255..257, 511..513, 1023..1025 (keys k0..): all ordered pairs over 5 variants (base, reversed, rotated by 7, last value changed, last member dropped) x 16 pairs of realisations (parsed / with lookup maps / API-built in reverse order / deep copy into a freeing-allocator document), and arrays of the same sizes (base, last element changed)";
+  std::vector<vr::Family> fams = {f1, f2, f3, f4};
   if (args.replay) return R.replay_one(fams, check);
   for (auto& f : fams) R.run(f, check);
   return R.finish();
